@@ -19,7 +19,7 @@ import vlib
 MODULE_MC = "OTR_MC"
 MODULE_GEN = "OTR_Gen"
 # configs checked for vacuity (thorough tier): actions that the config switches off on purpose
-EXPECT_UNUSED = {"Full": ["UserQuery"], "SMP2": ["UserEnd", "Fault", "UserQuery"], "Faults": ["UserEnd", "UserAuth", "UserQuery"],
+EXPECT_UNUSED = {"Full": ["UserQuery"], "SMP2": ["UserEnd", "Fault", "UserQuery", "UserSend"], "Faults": ["UserEnd", "UserAuth", "UserQuery"],
                  "Requery": ["UserEnd", "UserAuth", "Fault"]}
 
 
@@ -71,7 +71,7 @@ def run(ctx):
     T = ctx.thorough
 
     # ------------------------------------------------------------------ model checking
-    mc = ["Data", "SMPSeq", "FaultsQ"] + (["AKE", "SMPQ", "SMP", "SMPSeq3", "SMPSeqFixed", "DataT", "Faults", "SMP2", "Full", "Requery"] if T else [])
+    mc = ["Data", "SMPSeq", "FaultsQ"] + (["AKE", "SMPQ", "SMP", "SMPSeq3", "DataT", "Faults", "SMP2", "Full", "Requery"] if T else [])
 
     def mcjob(c):
         return lambda: ctx.tlc(MODULE_MC, cfg="OTR_%s.cfg" % c, workers=4 if T else 2, timeout=2400, count=False,
@@ -93,12 +93,13 @@ def run(ctx):
     # configuration: TLC must still find the state without a D-H key that made the next commit panic
     jobs.append(("doc:CommitState", lambda: ctx.tlc(MODULE_MC, cfg="OTR_DocCommitState.cfg", workers=1, timeout=2400, count=False,
                                                      expect_violation=True, note="expected counterexample: pre-b85d235 commit handling reaches AwaitingRevealSig without a D-H key")))
-    # finding C47-S1 (open): the code as it is keeps the SMP state after a FAILED run, so RunOutcome (every clean run of a session:
-    # responder asked once, Complete on both sides iff the secrets of that run are equal) fails for the first run the other side
-    # starts afterwards; the must-hold configurations check RunOutcomeKnown (RunOutcome without that situation), this Doc
-    # configuration must find the counterexample, and OTR_SMPSeqFixed (thorough) shows RunOutcome holds for the proposed repair
+    # finding C47-S1 (repaired in otr 9e113f0): every configuration models the repaired code (FixSMPReset = TRUE) and checks the full
+    # RunOutcome (every clean SMP run of a session: responder asked once, Complete on both sides iff the secrets of that run are
+    # equal); the old behaviour (SMP state kept after a FAILED run) survives only in this Doc configuration, whose counterexample
+    # TLC must still find.  A regression of the code is a VIOLATION with the original signature
+    # otr-smp-run:after-failed:roles-swapped:responder-not-asked (judged per run by the harness)
     jobs.append(("doc:SMPStale", lambda: ctx.tlc(MODULE_MC, cfg="OTR_DocSMPStale.cfg", workers=1, timeout=2400, count=False,
-                                                  expect_violation=True, note="expected counterexample (finding C47-S1): SMP state kept after a failed run")))
+                                                  expect_violation=True, note="expected counterexample (finding C47-S1, pre-9e113f0 code): SMP state kept after a failed run")))
     if T:
         jobs.append(("doc:SecondRun", lambda: ctx.tlc(MODULE_MC, cfg="OTR_DocSecondRun.cfg", workers=1, timeout=2400, count=False,
                                                        expect_violation=True, note="non-vacuity: a clean, answered second run after a successful first one is reachable")))
@@ -123,8 +124,9 @@ def run(ctx):
     if res["doc:CommitState"].violated != "NoNilKey":
         raise vlib.Infra("the documented counterexample to NoNilKey (pre-repair commit handling) was not found (TLC: %r)" % res["doc:CommitState"].violated)
     if res["doc:SMPStale"].violated != "RunOutcome":
-        raise vlib.Infra("the documented counterexample to RunOutcome (SMP state kept after a failed run) was not found (TLC: %r): "
-                         "if the code was repaired, set FixSMPReset = TRUE in the OTR configurations" % res["doc:SMPStale"].violated)
+        raise vlib.Infra("the documented counterexample to RunOutcome (the pre-9e113f0 code: SMP state kept after a failed run, "
+                         "FixSMPReset = FALSE in OTR_DocSMPStale.cfg) was not found (TLC: %r): the model no longer separates the old "
+                         "behaviour from the repaired one" % res["doc:SMPStale"].violated)
     if T and res["doc:SecondRun"].violated != "NoSecondRunAfterSuccess":
         raise vlib.Infra("vacuity: no second SMP run after a successful first one in the model (TLC: %r)" % res["doc:SecondRun"].violated)
     if T and res["doc:RequeryLoss"].violated != "RequeryLosesNothing":
@@ -183,7 +185,7 @@ def run(ctx):
     ctx.notes.append("observations outside the verdict: Send of a text containing NUL makes the peer parse the rest as TLVs (protocol format); "
                      "a failed reveal-signature message leaves gxBytes decrypted in place so a retry fails; a duplicate DH-key in AwaitingSig is "
                      "answered with a DH-key message carrying the peer's own value; after a failed SMP run the initiator keeps state 4 and aborts "
-                     "the peer's next SMP1 (finding C47-S1, judged per run by the harness); a query received while encrypted resets the key ids at once, so data sent before the new AKE completes is lost")
+                     "the peer's next SMP1 -- that was finding C47-S1, repaired in otr 9e113f0 and modelled as repaired; a query received while encrypted resets the key ids at once, so data sent before the new AKE completes is lost")
     try:
         with open(vlib.VERIF + "/known_findings.json") as fh:
             known = {k["signature"] for k in json.load(fh) if k.get("property") == "C47" and k.get("status") == "open"}
